@@ -260,6 +260,42 @@ fn c05_subrows_2x4() { subrows::<2, 4, 12>(); }
 #[kani::unwind(40)]
 fn c05_subrows_3x8() { subrows::<3, 8, 30>(); }
 
+/// sub-rows with a string column: the string heap of sub-row i starts right after ITS fixed
+/// region (sub-row start + data_offset), not after the row header.
+/// Layout: 2 sub-rows x (2-byte id + 4-byte fixed region holding a u32 string offset), then heap.
+#[kani::proof]
+#[kani::unwind(40)]
+fn c05_subrows_with_strings() {
+    const DO: usize = 4;
+    // sub-row 0: id @0..2, fixed @2..6 ; sub-row 1: id @6..8, fixed @8..12 ; heap bytes from 12
+    let mut body = [0u8; 28];
+    let junk: [u8; 4] = kani::any();
+    body[0] = junk[0]; body[1] = junk[1]; body[6] = junk[2]; body[7] = junk[3];
+    // string of sub-row 0 = base (2 + 4 = 6) + offset 6 = 12 ; of sub-row 1 = base (8 + 4 = 12) + offset 4 = 16
+    body[5] = 6;
+    body[11] = 4;
+    body[12] = b'o'; body[13] = b'n'; body[14] = b'e'; body[15] = 0;
+    body[16] = b't'; body[17] = b'w'; body[18] = b'o'; body[19] = 0;
+    let mut data = vec![0u8; ROW_AT + 6 + 28];
+    data[ROW_AT + 3] = 28;
+    data[ROW_AT + 5] = 2;
+    let mut i = 0;
+    while i < 28 { data[ROW_AT + 6 + i] = body[i]; i += 1; }
+    let exd = EXD { header: EXDHeader { version: 2, index_size: 8 }, data_offsets: vec![ExcelDataOffset { row_id: 9, offset: ROW_AT as u32 }], data };
+    let exh = exh_with(vec![ExcelColumnDefinition { data_type: ColumnDataType::String, offset: 0 }], DO as u16);
+    let rows = exd.read_row(&exh, 9).unwrap();
+    assert_eq!(rows.len(), 2);
+    match (&rows[0].data[0], &rows[1].data[0]) {
+        (ColumnData::String(a), ColumnData::String(b)) => {
+            assert!(a.as_bytes() == b"one");
+            assert!(b.as_bytes() == b"two");
+        }
+        _ => panic!("wrong variants"),
+    }
+    kani::cover!(true);
+    core::mem::forget((rows, exd, exh));
+}
+
 /// Guard in front of the real cell reader: a read that would run past the end of the data returns
 /// `None` directly instead of going through binrw's error construction and drop glue (which CBMC
 /// cannot get through, DESIGN.md section 3); in-range reads go to the real binrw reader.
@@ -362,6 +398,10 @@ fn c05_row_lookup_unknown() { row_lookup(3, 0xFFFF_FFFF, 7); }
 #[kani::proof]
 #[kani::unwind(18)]
 fn c05_row_lookup_big_id() { row_lookup(0, 0x8000_0001, 0x8000_0001); }
+/// the index need not be sorted by row id
+#[kani::proof]
+#[kani::unwind(18)]
+fn c05_row_lookup_unsorted_index() { row_lookup(10, 3, 3); }
 
 #[kani::proof]
 #[kani::unwind(18)]
